@@ -9,6 +9,7 @@ ap = argparse.ArgumentParser()
 ap.add_argument("--file"); ap.add_argument("--old"); ap.add_argument("--new")
 ap.add_argument("--count", type=int, default=1)
 ap.add_argument("--patch")
+ap.add_argument("--revert", help="commit in /repo whose change is reverted in the scratch copy")
 ap.add_argument("--tier", default="quick")
 ap.add_argument("--tests", action="store_true", help="also run the repo's baseline tests on the mutated copy")
 ap.add_argument("--seed", default="0")
@@ -17,7 +18,10 @@ a = ap.parse_args()
 d = tempfile.mkdtemp(prefix="vprobe-")
 try:
     subprocess.run(["rsync", "-a", "--exclude", ".git", "/repo/", d + "/"], check=True)
-    if a.patch:
+    if a.revert:
+        diff = subprocess.run(["git", "-C", "/repo", "diff", a.revert, a.revert + "^"], check=True, stdout=subprocess.PIPE).stdout
+        subprocess.run(["patch", "-p1", "-s", "-d", d], input=diff, check=True)
+    elif a.patch:
         subprocess.run(["patch", "-p1", "-s", "-d", d, "-i", os.path.abspath(a.patch)], check=True)
     else:
         p = os.path.join(d, a.file)
